@@ -996,7 +996,7 @@ CRITS = ["utt_list", "utt_list_file", "first_n", "first_ratio", "last_n", "last_
 def g_subset(rng):
     pre, suf = g_name_parts(rng)
     utts = g_utts(rng, rng.choice([0, 1, 2, 3, 4, 5, 6, 7]))
-    lens = {u: rng.choice([0, 1, 2, 2, 3, 5, 10, 11]) for u in utts}
+    lens = {u: rng.choice([0, 1, 2, 2, 2, 3, 3, 5]) for u in utts}
     extra = ["extra1", "extra2"]
     ali = None if rng.random() < 0.3 else [u for u in utts + extra if rng.random() < 0.8]
     ref = None if rng.random() < 0.3 else [u for u in utts + extra if rng.random() < 0.8]
@@ -1478,12 +1478,67 @@ def x_tg(chk, sc, case):
 
 
 # ----------------------------------------------------------------------------------------
+# kind "chunk": worker-count independence of chunk-torch-spect-data-dir (its content is C10's)
+# ----------------------------------------------------------------------------------------
+
+
+def g_chunk(rng):
+    pre, suf = g_name_parts(rng)
+    utts = g_utts(rng, rng.choice([1, 2, 3, 4]))
+    case = dict(kind="chunk", pre=pre, suf=suf, lens={u: rng.choice([1, 2, 3, 5, 8]) for u in utts},
+                policy=rng.choice(["fixed", "fixed", "ali", "ref"]), lobe=rng.choice([0, 1, 2]),
+                window=rng.choice(["symmetric", "causal", "future"]), pad=rng.choice([None, "constant", "replicate"]),
+                seed=rng.randint(0, 999), workers=2, pool="fake", chunk=rng.choice([1, 2]), sched=rng.randint(0, 10 ** 6))
+    return case
+
+
+def _tree(root):
+    out = {}
+    for dp, _, fns in os.walk(root):
+        for fn in fns:
+            t = torch.load(os.path.join(dp, fn))
+            out[os.path.relpath(os.path.join(dp, fn), root)] = (list(t.shape), t.flatten().tolist())
+    return out
+
+
+def x_chunk(chk, sc, case):
+    root = sc.new()
+    src = os.path.join(root, "src")
+    rng = random.Random(case["seed"])
+    pre, suf = case["pre"], case["suf"]
+    for sub in ("feat", "ali", "ref"):
+        os.makedirs(os.path.join(src, sub))
+    for u, T in case["lens"].items():
+        torch.save(torch.tensor([[float(rng.randint(-3, 3)) for _ in range(2)] for _ in range(T)]).view(T, 2),
+                   os.path.join(src, "feat", pre + u + suf))
+        ali = [rng.randint(0, 2) for _ in range(T)]
+        torch.save(torch.tensor(ali, dtype=torch.long), os.path.join(src, "ali", pre + u + suf))
+        segs = [[v, i, i + 1] for i, v in enumerate(ali)]
+        torch.save(torch.tensor(segs, dtype=torch.long).view(-1, 3), os.path.join(src, "ref", pre + u + suf))
+    outs = []
+    for k, (w, seed) in enumerate([(0, None), (case["workers"], case["sched"])]):
+        dst = os.path.join(root, "dst%d" % k)
+        args = [src, dst] + fix_args(case) + ["--policy", case["policy"], "--lobe-size", case["lobe"],
+                                              "--window-type", case["window"], "--quiet", "--num-workers", w]
+        if w:
+            args += ["--mp-chunk-size", case["chunk"]]
+        if case["pad"]:
+            args += ["--pad-mode", case["pad"]]
+        r = run_cmd("chunk_torch_spect_data_dir", args, seed)
+        outs.append((r["exc"], _tree(dst) if r["exc"] is None and os.path.isdir(dst) else None))
+    meta = []
+    if outs[0] != outs[1]:
+        meta.append(f"chunk-torch-spect-data-dir: serial outcome {outs[0][0]}, pool outcome {outs[1][0]}, or different files")
+    return dict(terms=[], meta=meta, count={"chunk_outcome=" + str(outs[0][0]): 1}, nontrivial=len(case["lens"]) >= 2)
+
+
+# ----------------------------------------------------------------------------------------
 # driver
 # ----------------------------------------------------------------------------------------
 
-EXEC = {"ali": x_ali, "ref2ali": x_ref2ali, "trn": x_trn, "ctm": x_ctm, "er": x_er, "subset": x_subset, "mom_ali": x_mom, "mom_ref": x_mom, "mvn": x_mvn, "tg": x_tg}
-GEN = {"ali": g_ali, "ref2ali": g_ref2ali, "trn": g_trn, "ctm": g_ctm, "er": g_er, "subset": g_subset, "mom_ali": g_mom_ali, "mom_ref": g_mom_ref, "mvn": g_mvn, "tg": g_tg}
-QUICK = {"ali": 60, "ref2ali": 50, "trn": 80, "ctm": 70, "er": 120, "subset": 110, "mom_ali": 50, "mom_ref": 60, "mvn": 60, "tg": 60}
+EXEC = {"ali": x_ali, "ref2ali": x_ref2ali, "trn": x_trn, "ctm": x_ctm, "er": x_er, "subset": x_subset, "mom_ali": x_mom, "mom_ref": x_mom, "mvn": x_mvn, "tg": x_tg, "chunk": x_chunk}
+GEN = {"ali": g_ali, "ref2ali": g_ref2ali, "trn": g_trn, "ctm": g_ctm, "er": g_er, "subset": g_subset, "mom_ali": g_mom_ali, "mom_ref": g_mom_ref, "mvn": g_mvn, "tg": g_tg, "chunk": g_chunk}
+QUICK = {"ali": 90, "ref2ali": 70, "trn": 120, "ctm": 100, "er": 180, "subset": 220, "mom_ali": 70, "mom_ref": 90, "mvn": 80, "tg": 80, "chunk": 16}
 
 
 def g_real(rng, k):
@@ -1532,6 +1587,47 @@ def execute(chk, sc, case):
         pass
 
 
+def _cands(case):
+    """smaller cases: drop one file / utterance, drop strays, serial pool"""
+    for key in ("files", "lens"):
+        if isinstance(case.get(key), dict):
+            for k in list(case[key]):
+                c = json.loads(json.dumps(case))
+                del c[key][k]
+                yield c
+    if isinstance(case.get("ref"), dict) and isinstance(case.get("hyp"), dict):
+        for k in sorted(set(case["ref"]) | set(case["hyp"])):
+            c = json.loads(json.dumps(case))
+            c["ref"].pop(k, None)
+            c["hyp"].pop(k, None)
+            yield c
+    if isinstance(case.get("utts"), list):
+        for k in range(len(case["utts"])):
+            c = json.loads(json.dumps(case))
+            del c["utts"][k]
+            yield c
+    if case.get("strays"):
+        c = json.loads(json.dumps(case))
+        c["strays"] = {}
+        yield c
+    if case.get("workers") and case.get("pool") != "real":
+        c = json.loads(json.dumps(case))
+        c["workers"] = 0
+        yield c
+    for key in ("rep", "ign"):
+        if case.get(key):
+            c = json.loads(json.dumps(case))
+            c[key] = []
+            yield c
+
+
+def _outcome(chk, sc, case):
+    """-> (failing labels, metamorphic messages)"""
+    res = execute(chk, sc, json.loads(json.dumps(case)))
+    vals = coq_eval_bools(chk.workdir, IMPORTS, [t for _, t in res["terms"]], tag="shr") if res["terms"] else []
+    return [lb for (lb, _), ok in zip(res["terms"], vals) if not ok], res["meta"]
+
+
 def run(chk, cases=None):
     chk.rule = ("case = a generated corpus (directories of small tensors, transcript files) + the flags of one console "
                 "function of pydrobert.torch.command_line, called in-process; outputs (directories as name->tensor maps, "
@@ -1540,7 +1636,10 @@ def run(chk, cases=None):
     chk.assumptions += [
         "multiprocessing pools are substituted in-process by a pool that completes chunks in a seeded permuted order (a few real spawn pools run besides)",
         "the C11 readers/writers are observed at their call boundary (arguments and results recorded, call still executed)",
-        "os.listdir order is data handed to the model; torch.save/torch.load are trusted"]
+        "os.listdir order is data handed to the model; torch.save/torch.load are trusted",
+        "per-pair edit counts under non-uniform costs are taken from functional.error_rate (C02); unit/uniform costs use lev from PV.C01.Spec",
+        "token-dir -> TextGrid command and chunk-torch-spect-data-dir: metamorphic relations only (no model)"]
+    chk.extra["trusted_base"] = ["PV.C11.Model (transcript_to_token / token_to_transcript) and PV.C01.Spec (lev) are imported definitions"]
     cases = cases if cases is not None else gen_cases(chk)
     sc = Scratch(chk)
     terms, owners, metas = [], [], []
@@ -1569,20 +1668,39 @@ def run(chk, cases=None):
             bad.setdefault(ci, []).append(label)
     chk.extra["model_disagreements"] = len(bad)
     chk.extra["metamorphic_failures"] = len(metas)
-    reported = 0
-    for ci, m in metas[:6]:
-        chk.report({"case": cases[ci], "what": "metamorphic relation of the property fails: " + m,
-                    "correspondence": CORR, "kind": cases[ci]["kind"]})
-        reported += 1
-    for ci, labels in list(bad.items())[:6]:
-        spec_rejects = any(lb.startswith("spec:") for lb in labels)
-        only_spec = all(lb.startswith("spec:") for lb in labels)
-        rec = {"case": cases[ci], "failing_checks": labels, "correspondence": CORR, "kind": cases[ci]["kind"],
-               "theorems_at_stake": THEOREMS.get(cases[ci]["kind"], []),
-               "what": "implementation output differs from PV.C17.Model (%s)" % ", ".join(labels)}
-        # the outputs are uniquely fixed by the property (directories, figures): a disagreement is a
-        # failing input unless it only concerns which exception is raised
-        chk.report(rec, no_failing_input=False)
+    failing = {}
+    for ci, m in metas:
+        failing.setdefault(ci, {"labels": [], "meta": []})["meta"].append(m)
+    for ci, labels in bad.items():
+        failing.setdefault(ci, {"labels": [], "meta": []})["labels"] += labels
+    # concrete failures (a metamorphic relation of the property, or a spec judgement) first
+    order = sorted(failing, key=lambda ci: (not failing[ci]["meta"], not any(lb.startswith("spec:") for lb in failing[ci]["labels"]), ci))
+    for ci in order[:5]:
+        case = cases[ci]
+
+        def still(c, _kind=case["kind"]):
+            lb, mt = _outcome(chk, sc, c)
+            return bool(lb or mt)
+
+        small = shrink(case, still, _cands, budget=14) if case.get("pool") != "real" else case
+        labels, meta = _outcome(chk, sc, small)
+        if not (labels or meta):
+            small, labels, meta = case, failing[ci]["labels"], failing[ci]["meta"]
+        sc.clean()
+        model_only = bool(labels) and not meta and not any(lb.startswith("spec:") for lb in labels)
+        # where a separate boolean reading of the property exists (segmentations, printed totals) and accepts the
+        # output, the disagreement is between code and model only
+        has_spec = small["kind"] in ("ali",) or (small["kind"] == "er" and not small.get("per_utt")
+                                                  and small.get("costs") in (None, [2.0, 2.0, 2.0]))
+        rec = {"case": small, "failing_checks": labels, "metamorphic": meta, "correspondence": CORR,
+               "kind": small["kind"], "theorems_at_stake": THEOREMS.get(small["kind"], [])}
+        if meta:
+            rec["what"] = "the property fails on this input: " + "; ".join(meta[:3])
+        elif any(lb.startswith("spec:") for lb in labels):
+            rec["what"] = "implementation output rejected by the boolean reading of the property (%s)" % ", ".join(labels)
+        else:
+            rec["what"] = "implementation output differs from PV.C17.Model (%s)" % ", ".join(labels)
+        chk.report(rec, no_failing_input=bool(model_only and has_spec))
 
 
 def replay(chk, path):
